@@ -13,7 +13,16 @@ CLASSES = ["Signal", "RadioSignal", "IntensitySignal", "FullStokesSignal", "Base
 # ordinary dates, and UTC days that end in a leap second (86401 s long: naive Julian-date arithmetic is wrong there)
 T0S = ["2021-03-04T05:06:07.123456789", "2019-11-30T23:59:00.000000000", "2016-12-31T23:59:30.000000000",
        "2015-06-30T12:00:00.250000000", "1975-05-05T05:05:05.500000000", "2055-11-11T11:11:11.111111111",
+       # start times kept on other time scales (GPS/TAI receivers, barycentred data): "<iso>@<scale>"; elapsed time on a scale is
+       # counted in that scale's own seconds, and a result stays on its input's scale
+       "2018-07-07T07:07:07.700000000@tai", "2021-03-04T05:06:07.123456789@tcb", "2012-06-30T23:59:59.500000000@tt",
        "2000-01-01T12:00:00.5"]
+
+
+def T(t0):
+    """the start time a case names: an ISO string, optionally with '@scale'"""
+    iso, _, scale = t0.partition("@")
+    return Time(iso, scale=scale or "utc", precision=9)
 
 
 def sample_shape(cls, nchan=3, extra=()):
@@ -84,7 +93,7 @@ def make(pb, cls, L, rate, t0=None, nchan=3, extra=(), center_freq=None, chan_bw
     # arguments equal to their documented defaults are left out: the defaults are part of the interface
     kw = dict(sample_rate=rate)
     if t0 is not None:
-        kw["start_time"] = Time(t0, precision=9)
+        kw["start_time"] = T(t0)
     if meta is not None:
         kw["meta"] = meta
     C = getattr(pb, cls)
